@@ -120,7 +120,7 @@ namespace glm
 	/// Maximum comparison between 2 variables and returns 2 associated variable values
 	/// @see gtx_associated_min_max
 	template<length_t L, typename T, typename U, qualifier Q>
-	GLM_FUNC_DECL vec<L, T, Q> associatedMax(
+	GLM_FUNC_DECL vec<L, U, Q> associatedMax(
 		T x, vec<L, U, Q> const& a,
 		T y, vec<L, U, Q> const& b);
 
@@ -150,7 +150,7 @@ namespace glm
 	/// Maximum comparison between 3 variables and returns 3 associated variable values
 	/// @see gtx_associated_min_max
 	template<length_t L, typename T, typename U, qualifier Q>
-	GLM_FUNC_DECL vec<L, T, Q> associatedMax(
+	GLM_FUNC_DECL vec<L, U, Q> associatedMax(
 		T x, vec<L, U, Q> const& a,
 		T y, vec<L, U, Q> const& b,
 		T z, vec<L, U, Q> const& c);
